@@ -257,6 +257,13 @@ def literals(tier):
                     items.append(("addr", good[:i] + ch + good[i + 1:]))
         for bad in (good[:-1], good + "A", "", good.lower(), good[:57] + "=", " " + good[1:]):
             items.append(("addr", bad))
+        # every way of lengthening / shortening the 58 characters at either end by padding, blanks, line ends
+        for k in range(1, 9):
+            items.append(("addr", good + "=" * k))
+            items.append(("addr", good[:58 - k] + "=" * k))
+        for extra in (" ", "\n", "\t", "\r\n", "\x00", "A" * 6, "AA======"):
+            items.append(("addr", good + extra))
+            items.append(("addr", extra + good))
     for n in (-1, 0, 1, 127, 128, (1 << 63), (1 << 64) - 1, (1 << 64), True, 1.0, "1", None):
         items.append(("int", n))
     for s in strings(SIG_ALPHA, 3 if tier == "quick" else 4):
